@@ -4,7 +4,7 @@ CHECKS = {
   text=('Theorems for EVERY number of stages k, every handler function (any fan-out), every list of successfully published source messages, every fault script '
         '(per stage and call number: handler error, handler panic, publish error/panic after the next topic accepted the first j outputs) and every schedule of a hand-written '
         'pipeline model composed from the component specifications (Router on one delivered copy = C02\'s handleMessage model, instantiated from the real C02 lemmas; GoChannel topic = '
-        'publication pending until one copy is Acked - proved to be a step-for-step refinement of the composition of the registry model Reg.v with the send-loop model Sub.v for an always-registered subscription; redelivery after a Nack is immediate): nothing arriving at the final topic is invented (lineage and path derive from a '
+        'publication pending until one copy is Acked - proved to be a step-for-step refinement of the composition of the registry model Reg.v with the send-loop model Sub.v for an always-registered subscription; redelivery after a Nack is immediate; handlers are context-aware and every delivered copy - redeliveries included - has a live context): nothing arriving at the final topic is invented (lineage and path derive from a '
         'really published source message), a stage Acks a copy only after the next topic accepted every output and after Publish returned, every fault ends in a Nack and the publication '
         'stays pending, never-lost invariant, and - for scripts with finitely many faults per stage - every run is finite under every scheduler (Acc, lexicographic measure faults x remaining '
         'handler invocations), stops only when nothing is pending, and then every descendant of every source message has arrived; duplicates at the final topic are counted exactly '
